@@ -19,6 +19,7 @@ Fixpoint subst (sigma : name -> option lit) (e : expr) {struct e} : expr :=
   | EConst l => EConst l
   | EVar x => match sigma x with Some l => EConst l | None => EVar x end
   | EList items => EList (map (subst sigma) items)
+  | EMap pairs => EMap (map (fun p => (subst sigma (fst p), subst sigma (snd p))) pairs)
   | ENeg a => ENeg (subst sigma a)
   | ENot a => ENot (subst sigma a)
   | EBin op a b => EBin op (subst sigma a) (subst sigma b)
@@ -46,6 +47,7 @@ Fixpoint callsafe (ok : name -> bool) (e : expr) {struct e} : bool :=
   match e with
   | EConst _ | EVar _ => true
   | EList items => forallb (callsafe ok) items
+  | EMap pairs => forallb (fun p => callsafe ok (fst p) && callsafe ok (snd p)) pairs
   | ENeg a | ENot a | EAttr a _ => callsafe ok a
   | EBin _ a b | EAnd a b | EOr a b | EItem a b => callsafe ok a && callsafe ok b
   | ECmp a rest => callsafe ok a && forallb (fun p => callsafe ok (snd p)) rest
@@ -71,6 +73,7 @@ Fixpoint depth (e : expr) {struct e} : nat :=
   match e with
   | EConst _ | EVar _ => 1
   | EList items => S (maxmap depth items)
+  | EMap pairs => S (maxmap (fun p => Nat.max (depth (fst p)) (depth (snd p))) pairs)
   | ENeg a | ENot a | EAttr a _ => S (depth a)
   | EBin _ a b | EAnd a b | EOr a b | EItem a b => S (Nat.max (depth a) (depth b))
   | ECmp a rest => S (Nat.max (depth a) (maxmap (fun p => depth (snd p)) rest))
